@@ -269,7 +269,7 @@ def main(tier):
     ev.cov["rule"] = RULE
     ev.assumptions = ["the stack shape is read through the guarded accessor verif_engine(); callback invocations beyond the cap (10 quick / 25 thorough) are not faulted",
                       "quick tier uses two exception kinds per program (rotating), thorough all six"]
-    n = 240 if tier == "quick" else 6000
+    n = 240 if tier == "quick" else 2400
     failures = hyp.run("c09", ev, tier, n)
     ev.cov["programs"] = ev.cov.get("evaluations", 0)
     ev.cov["evaluations"] = ev.cov.get("fault_runs", 0) + ev.cov.get("evaluations", 0)
